@@ -1,12 +1,14 @@
 CONSTANTS
   MaxUI = 1
-  Kinds = {"finite", "endless"}
+  Kinds = {"finite", "endless", "closed"}
   ShowBumpsVersion = TRUE
   TemplateHasQ = TRUE
   H = 2
   LensKind = "mixed"
   WithReload = TRUE
   ReloadBumpsVersion = TRUE
+  WithHideKeep = TRUE
+  Follow = FALSE
   WithScroll = TRUE
   DelayedSetsVersion <- TreeDelayedSetsVersion
 SPECIFICATION Spec
